@@ -6,6 +6,7 @@ import (
 	"iter"
 	"math/rand"
 	"strconv"
+	"strings"
 
 	"github.com/fluhus/biostuff/formats/fastq"
 )
@@ -36,6 +37,12 @@ func fqRead(data []byte) (items []fqItem, panicked bool) {
 	items = []fqItem{}
 	var kept []*fastq.Fastq // nil = error item; records are projected after the iteration (they must stay what they were)
 	panicked, _ = catch(func() {
+		if failedReadsFirst {
+			for _, t := range malformedTexts["fastq"] {
+				for range fastq.Reader(strings.NewReader(t)) {
+				}
+			}
+		}
 		seq := fastq.Reader(deliver(data))
 		if fqPairedWith != nil { // consumed in lockstep with a reader over another text (paired-end files are read like this)
 			next, stop := iter.Pull2(fastq.Reader(bytes.NewReader(fqPairedWith)))
@@ -352,6 +359,7 @@ func fastqDrive(args []string) error {
 			tw.emit(ev)
 		}
 		readDelivery, fqGrow = []int{0, 0, 1, 0, 2, 3}[sid%6], sid%3 == 1
+		failedReadsFirst = sid%3 == 2
 		fqPairedWith = nil
 		if sid%5 == 3 {
 			fqPairedWith = []byte("@mate/2\nTTTTGGGGCCCCAAAA\n+\nIIIIHHHHGGGGFFFF\n@m2/2\nAC\n+\n!!\n@m3/2\n\n+\n\n")
